@@ -340,3 +340,18 @@ class World:
 
 def is_manifest_name(name):
     return name in G.MANIFEST_NAMES or (name.startswith('Manifest.') )
+
+
+def blocking_manifest(root, names=('Manifest',)):
+    """A file called Manifest (or the top-level name) that resolves to a FIFO
+    blocks any reader for ever; such worlds are outside every property."""
+    for d, dn, fn in os.walk(root):
+        for n in fn:
+            if n in names or n.startswith('Manifest'):
+                try:
+                    st = _o['os.stat'](os.path.join(d, n))
+                except OSError:
+                    continue
+                if stat.S_ISFIFO(st.st_mode):
+                    return True
+    return False
